@@ -389,7 +389,12 @@ class Interp:
                 self.exec_block(st.orelse, env)
             self.exec_block(st.finalbody, env)
             return
-        if isinstance(st, (ast.Global, ast.Nonlocal, ast.Import, ast.ImportFrom)):
+        if isinstance(st, ast.Global):
+            env.setdefault("__globals__", set()).update(st.names)
+            for nm in st.names:
+                env.pop(nm, None)
+            return
+        if isinstance(st, (ast.Nonlocal, ast.Import, ast.ImportFrom)):
             return
         if isinstance(st, ast.Delete):
             for t in st.targets:
@@ -407,6 +412,9 @@ class Interp:
 
     def assign(self, target, val, env):
         if isinstance(target, ast.Name):
+            if target.id in env.get("__globals__", ()):
+                self.globals[target.id] = val  # `global X` was declared in this function
+                return
             env[target.id] = val
             return
         if isinstance(target, ast.Attribute):
